@@ -199,7 +199,10 @@ static void op_dim_far(const VhLine *l) {
     memset(hdr, 0, sizeof(hdr));
     varintDimensionPair dim = varintDimensionPairEncode(hdr, (size_t)rows, (size_t)cols);
     size_t hl = (size_t)VARINT_DIMENSION_PAIR_BYTE_LENGTH(dim);
-    unsigned __int128 cells = (unsigned __int128)rows * cols;
+    /* tall=1: the row count is only a header field (up to 2^64-1 rows: headers of 9..16 bytes); only rows 0..3 are
+     * backed and touched */
+    int tall = kw(l, "tall") ? (int)p_u64(kw(l, "tall")) : 0;
+    unsigned __int128 cells = (unsigned __int128)(tall ? 4 : rows) * cols;
     unsigned __int128 need = w ? cells * (unsigned)w : (cells + 7) / 8;
     if (need > ((unsigned __int128)1 << 36)) {
         out("bad-dim");
@@ -213,6 +216,10 @@ static void op_dim_far(const VhLine *l) {
     }
     memcpy(raw, hdr, hl);
     uint64_t rr[3] = {1, rows - 1, rows / 2 ? rows / 2 : 1};
+    if (tall) {
+        rr[1] = 2;
+        rr[2] = 3;
+    }
     uint64_t cc[4] = {0, 1, cols - 1, cols / 2};
     int bad = 0;
     for (int a = 0; a < 3 && !bad; a++) {
